@@ -23,6 +23,17 @@ Fixpoint mem_pair (a b : string) (l : list (string * string)) : bool :=
   | (x, y) :: r => (String.eqb a x && String.eqb b y) || mem_pair a b r
   end.
 
+(* the case-fold representative of every character of the case (absent = itself): ASCII
+   lower-casing for bytes patterns, sre's equivalence classes for str patterns; whether it is
+   the engine's is checked by table_str_ok on the recorded answers of the string terminals *)
+Fixpoint assoc_ascii (c : ascii) (l : list (ascii * ascii)) : ascii :=
+  match l with
+  | [] => c
+  | (a, b) :: r => if Ascii.eqb c a then b else assoc_ascii c r
+  end.
+Definition fold_tab (l : list (ascii * ascii)) : ascii -> ascii := fun c => assoc_ascii c l.
+Definition ch (n : nat) : ascii := ascii_of_nat n.
+
 Definition m_tab (input : string) (tab : list (list (string * nat))) (unl : list (string * string))
   : term -> string -> nat -> option nat :=
   fun t txt p =>
@@ -78,18 +89,19 @@ Definition end_ok (e : lex_end) (code p : nat) : bool :=
 
 (* the hypotheses "for string terminals m is the prefix test and max_width = len(value)",
    checked on the recorded table *)
-Definition table_str_ok (terms : list term) (text : string) (tab : list (list (string * nat))) : bool :=
+Definition table_str_ok (fold : ascii -> ascii) (terms : list term) (text : string) (tab : list (list (string * nat))) : bool :=
   forallb (fun t =>
     tre t ||
     Z.eqb (tmaxw t) (tvlen t) &&
     forallb (fun p =>
-      match assoc_nat (tname t) (nth p tab []), str_match_at t text p with
+      match assoc_nat (tname t) (nth p tab []), str_match_at fold t text p with
       | Some a, Some b => Nat.eqb a b
       | None, None => true
       | _, _ => false
       end) (seq 0 (S (String.length text)))) terms.
 
 Record bcase := mkB {
+  b_fold : list (ascii * ascii);
   b_terms : list term;                       (* conf.terminals, original order *)
   b_ign : list string;                       (* conf.ignore *)
   b_text : string;
@@ -107,14 +119,14 @@ Record bcase := mkB {
 Definition check_basic (c : bcase) : bool :=
   let m := m_tab (b_text c) (b_tab c) (b_unl c) in
   let st := sort_terms (b_terms c) in
-  table_str_ok (b_terms c) (b_text c) (b_tab c) &&
+  table_str_ok (fold_tab (b_fold c)) (b_terms c) (b_text c) (b_tab c) &&
   strs_eqb (map tname st) (o_sorted c) &&
   strs_eqb (callback_keys m st) (o_cbkeys c) &&
   match make_lexer m (cok_limit (b_limit c)) (b_terms c) (b_ign c) with
   | None => false
   | Some L =>
       strss_eqb (map (map tname) (lx_mres L)) (o_mres c) &&
-      let '(ts, e) := lex_from m (b_text c) L 0 in
+      let '(ts, e) := lex_from (fold_tab (b_fold c)) m (b_text c) L 0 in
       match o_code c with
       | 2 => toks_prefix (o_toks c) ts
       | code => toks_eqb ts (o_toks c) && end_ok e code (o_pos c)
@@ -124,6 +136,7 @@ Definition check_basic (c : bcase) : bool :=
 (* ---------------------------------------------------------------- contextual *)
 
 Record ccase := mkC {
+  c_fold : list (ascii * ascii);
   c_terms : list term;
   c_ign : list string;
   c_always : list string;
@@ -152,9 +165,9 @@ Definition check_ctx (c : ccase) : bool :=
   let acc := fun i : nat => nth i (c_accepts c) [] in
   let types := map (fun o : otok => fst (fst o)) (c_toks c) in
   let n := List.length (c_accepts c) in
-  let step := fun (i : nat) (ty : string) =>
-                if String.eqb ty (nth i types EmptyString) && (S i <? n) then Some (S i) else None in
-  table_str_ok (c_terms c) (c_text c) (c_tab c) &&
+  let step := fun (i : nat) (t : tok) =>
+                if String.eqb (ktype t) (nth i types EmptyString) && (S i <? n) then Some (S i) else None in
+  table_str_ok (fold_tab (c_fold c)) (c_terms c) (c_text c) (c_tab c) &&
   (* the sub-lexers' terminal lists *)
   forallb (fun i => match sub_lexer m cok nat acc (c_terms c) (c_ign c) (c_always c) i with
                     | Some L => strs_eqb (map tname (lx_terms L)) (nth i (c_subterms c) [])
@@ -162,7 +175,154 @@ Definition check_ctx (c : ccase) : bool :=
   match make_lexer m cok (c_terms c) (c_ign c) with
   | None => false
   | Some root =>
-      let '(ts, e) := ctx_lex m cok (c_text c) nat acc step (S (S (String.length (c_text c))))
+      let '(ts, e) := ctx_lex (fold_tab (c_fold c)) m cok (c_text c) nat acc step (S (S (String.length (c_text c))))
                               (c_terms c) (c_ign c) (c_always c) root 0 0 in
       toks_eqb ts (c_toks c) && cend_ok e c
+  end.
+
+(* ---------------------------------------------------------------- round 12: the Scanner object *)
+From LV Require Import Lex.Alt.
+
+Definition oans := option (string * nat).     (* Scanner.match(text, p): (lastgroup, len(value)) *)
+
+Definition oans_eqb (a b : oans) : bool :=
+  match a, b with
+  | None, None => true
+  | Some (x, n), Some (y, k) => String.eqb x y && Nat.eqb n k
+  | _, _ => false
+  end.
+
+Fixpoint oanss_eqb (a b : list oans) : bool :=
+  match a, b with
+  | [], [] => true
+  | x :: a', y :: b' => oans_eqb x y && oanss_eqb a' b'
+  | _, _ => false
+  end.
+
+(* a Scanner built directly from a terminal list (in the given order) under a group limit:
+   its alternations' group names and its answer at every position; for a strings-only list also
+   Scanner.fullmatch on a list of values *)
+Record acase := mkA {
+  a_fold : list (ascii * ascii);
+  a_terms : list term;
+  a_text : string;
+  a_tab : list (list (string * nat));
+  a_limit : nat;
+  a_mres : list (list string);
+  a_ans : list oans;                          (* Scanner.match at p = 0 .. len(text) *)
+  a_vals : list string;                       (* values given to Scanner.fullmatch *)
+  a_full : list (option string) }.
+
+Definition ostr_eqb (a b : option string) : bool :=
+  match a, b with None, None => true | Some x, Some y => String.eqb x y | _, _ => false end.
+
+Definition check_alt (c : acase) : bool :=
+  let m := m_tab (a_text c) (a_tab c) [] in
+  table_str_ok (fold_tab (a_fold c)) (a_terms c) (a_text c) (a_tab c) &&
+  match scanner_mres (cok_limit (a_limit c)) (a_terms c) with
+  | None => false
+  | Some mres =>
+      strss_eqb (map (map tname) mres) (a_mres c) &&
+      oanss_eqb (map (fun p => named (scan m (a_text c) mres p)) (seq 0 (S (String.length (a_text c))))) (a_ans c) &&
+      (fix go (vs : list string) (os : list (option string)) : bool :=
+         match vs, os with
+         | [], [] => true
+         | v :: vs', o :: os' =>
+             ostr_eqb (option_map tname (find (fun K => str_full (fold_tab (a_fold c)) K v) (List.concat mres))) o && go vs' os'
+         | _, _ => false
+         end) (a_vals c) (a_full c)
+  end.
+
+(* ---------------------------------------------------------------- round 12: contextual on lark's parse table *)
+From LV Require Import Cfg.Grammar LR.Driver Lex.ContextualLR.
+
+Record lcase := mkLC {
+  l_fold : list (ascii * ascii);
+  l_terms : list term;
+  l_ign : list string;
+  l_always : list string;
+  l_text : string;
+  l_tab : list (list (string * nat));
+  l_unl : list (string * string);
+  l_rows : rows;                              (* ParseTable.states *)
+  l_q0 : nat;
+  l_qe : nat;
+  l_states : list (nat * list string);        (* states.items(): state, list(row.keys()) *)
+  l_fresh : list bool;                        (* per state: lexers[state] is an object not seen at an earlier state *)
+  l_lexterms : list (list string);            (* per state: [t.name for t in lexers[state].terminals] *)
+  l_tops : list nat;                          (* parser_state.position at the i-th sub-lexer next_token call *)
+  l_toks : list otok;
+  l_code : nat;
+  l_pos : nat;
+  l_errtok : otok;
+  l_accepted : bool }.
+
+Definition dfuel_check : nat := 400.
+
+Fixpoint tops_of (terms : list term) (R : rows) (q0 qe : nat) (c : config tok) (ts : list tok) : list nat :=
+  hd 0 (sstack c) ::
+  match ts with
+  | [] => []
+  | t :: r => match lr_step terms R q0 qe dfuel_check c t with
+              | Some c' => tops_of terms R q0 qe c' r
+              | None => []
+              end
+  end.
+
+Fixpoint nats_prefix (a b : list nat) : bool :=
+  match a, b with
+  | [], _ => true
+  | x :: a', y :: b' => Nat.eqb x y && nats_prefix a' b'
+  | _, [] => false
+  end.
+
+Fixpoint bools_eqb (a b : list bool) : bool :=
+  match a, b with
+  | [], [] => true
+  | x :: a', y :: b' => Bool.eqb x y && bools_eqb a' b'
+  | _, _ => false
+  end.
+
+Definition lcend_ok (e : ctx_end) (c : lcase) : bool :=
+  match e, l_code c with
+  | CEOF, 0 => true
+  | CChars p, 1 => Nat.eqb p (l_pos c)
+  | CToken t, 2 => tok_eqb t (l_errtok c)
+  | CParse t, 3 => tok_eqb t (l_errtok c)
+  | _, _ => false
+  end.
+
+Definition check_lr (c : lcase) : bool :=
+  let fold := fold_tab (l_fold c) in
+  let m := m_tab (l_text c) (l_tab c) (l_unl c) in
+  let cok := cok_limit 0 in
+  let terms := l_terms c in
+  let R := l_rows c in
+  table_str_ok fold terms (l_text c) (l_tab c) &&
+  rows_known terms R &&
+  (* the row keys that name terminals are the accept sets the lexers were built from *)
+  forallb (fun qa : nat * list string =>
+             set_eqb (filter (fun n => mem_string n (map tname terms)) (snd qa))
+                     (filter (fun n => mem_string n (map tname terms)) (row_accepts terms R (fst qa))))
+          (l_states c) &&
+  (* ContextualLexer.__init__: which lexers are shared, and each one's sorted terminal list *)
+  let built := build_lexers m cok terms (l_ign c) (l_always c) (l_states c) [] in
+  bools_eqb (map snd built) (l_fresh c) &&
+  strss_eqb (map (fun x => match snd (fst x) with Some L => map tname (lx_terms L) | None => [] end) built)
+            (l_lexterms c) &&
+  match make_lexer m cok terms (l_ign c) with
+  | None => false
+  | Some root =>
+      let P := ContextualLR.P R (l_q0 c) (l_qe c) in
+      let '(ts, e) := ctx_lex fold m cok (l_text c) (config tok) (lr_accepts terms R)
+                              (lr_step terms R (l_q0 c) (l_qe c) dfuel_check)
+                              (S (S (String.length (l_text c)))) terms (l_ign c) (l_always c) root (init_config P) 0 in
+      toks_eqb ts (l_toks c) && lcend_ok e c &&
+      nats_prefix (l_tops c) (tops_of terms R (l_q0 c) (l_qe c) (init_config P) ts) &&
+      Nat.eqb (List.length (l_tops c)) (match e with CParse _ => List.length ts | _ => S (List.length ts) end) &&
+      match ctx_parse fold m cok (l_text c) terms (l_ign c) (l_always c) R (l_q0 c) (l_qe c) dfuel_check
+                      (S (S (String.length (l_text c)))) root (mkTok end_name (String.length (l_text c)) 0) with
+      | CxTree _ => l_accepted c
+      | _ => negb (l_accepted c)
+      end
   end.
